@@ -77,16 +77,25 @@ theorem C01_writes_are_reseeding :
 
 /-! ### Seeds -/
 
-/-- the code derives a distribution's seed from its path and the simulation seed only (regenerated expressions) -/
-theorem C01_seed_expressions :
-    Gen.Seed.uniqueName = "trace or self.trace or self.name" ∧
-    Gen.Seed.offsetExprs = ["str2int(unique_name)", "self.offset or 0"] ∧
-    Gen.Seed.seedExpr = "self.offset + (seed or self.seed or 0)" ∧
-    Gen.Seed.str2intInteger = "sc.sha(string, asint=True)" ∧ Gen.Seed.str2intSeed = "integer % modulo" ∧
-    Gen.Seed.rngExprs = ["np.random.mtrand._rand", "np.random.default_rng(seed=self.seed)"] ∧
-    Gen.Seed.distInitCalls = ["dist.init(trace=trace, seed=base_seed, sim=sim, force=force)"] ∧
-    Gen.Seed.simSetSeed = ["ss.set_seed(self.pars.rand_seed)"] ∧
-    Gen.Seed.simDistsInit = ["self.dists.init(obj=self, base_seed=self.pars.rand_seed, force=True)"] := by decide
+/-- How the code derives a distribution's seed — facts extracted SEMANTICALLY from the source on every run (robust to
+    renaming and re-ordering, sensitive to what is computed): the hashed name is the distribution's path, hashed by a
+    process-independent digest reduced modulo the public modulus (never the interpreter's randomised `hash()`), the
+    generator is `default_rng(seed)`, every distribution found by the path search is initialised with its path and the
+    simulation seed, and `Sim.init` reseeds the legacy global generators with that same seed. -/
+theorem C01_seed_derivation :
+    Gen.Seed.namePrefersTrace = true ∧ Gen.Seed.offsetHashesName = true ∧
+    Gen.Seed.usesBuiltinHash = false ∧ Gen.Seed.usesStableDigest = true ∧ Gen.Seed.reducesModulo = true ∧
+    Gen.Seed.rngFromSeed = true ∧ Gen.Seed.searchByPath = true ∧ Gen.Seed.initPassesTraceAndSeed = true ∧
+    Gen.Seed.simReseeds = true ∧ Gen.Seed.simDistsWithSeed = true := by decide
+
+/-- The seed formula translated from `Dist.process_seed` is the model's: path hash plus (seed argument, or the previous
+    seed when the argument is 0 / None) — for all values. -/
+theorem C01_seed_formula_is_model (offset prev : Nat) (arg : Option Nat) :
+    Gen.Seed.seedFormula offset (arg.getD 0) prev = offset + orSeed arg prev := by
+  unfold Gen.Seed.seedFormula Gen.Seed.pyOr orSeed
+  cases arg with
+  | none => by_cases h : prev = 0 <;> simp [h] <;> omega
+  | some k => by_cases h : k = 0 <;> by_cases h2 : prev = 0 <;> simp [h, h2] <;> omega
 
 /-- **Seed formula.** A freshly created distribution initialised with path hash `offset` and simulation seed
     `randSeed` gets `offset + randSeed` — for every `randSeed`, including 0. -/
